@@ -1,1 +1,4 @@
+import Props.C06
+import Props.C07
 import Props.C10
+import Props.C19
